@@ -75,7 +75,7 @@ CASES = [
     ("gaussianinput", "water.com", {"atcoords": "angstrom"}, None),
     ("mwfn", "ch3_hf_sto3g_fchk_multiwfn3.7.mwfn", {"atcoords": "angstrom", "energy": "one"}, r"Occ=|Naelec|Nbelec|E_tot"),
     ("extxyz", "mgo.xyz", {"atcoords": "angstrom", "cellvecs": "angstrom"}, None),
-    ("json_qcschema", "water_full.json", {"atcoords": "one", "atmasses": "amu"}, None),
+    ("json_qcschema", "@LiCl_molecule.json+masses", {"atcoords": "one", "atmasses": "amu"}, None),
 ]
 
 
@@ -99,8 +99,17 @@ def h_corpus(ctx, fmt="gamess", fn="PCGamess_PUNCH.dat", units=None, skip=None, 
     from iodata.utils import LoadError
     mods = rt._fmt_modules(fmt)
     import os
-    fpath = os.path.join(os.path.dirname(api.__file__), "test", "data", fn)
-    text = open(fpath).read()
+    if fn.startswith("@"):
+        # a QCSchema molecule with a 'masses' field (no corpus fixture has masses without mass_numbers)
+        import json as _json
+        base = fn[1:].split("+")[0]
+        doc = _json.load(open(os.path.join(os.path.dirname(api.__file__), "test", "data", base)))
+        doc["masses"] = [6.941, 35.453]
+        text = _json.dumps(doc, indent=2)
+        fn = "generated_" + base
+    else:
+        fpath = os.path.join(os.path.dirname(api.__file__), "test", "data", fn)
+        text = open(fpath).read()
     skip_re = re.compile(skip) if skip else None
 
     def skipf(t, m):
